@@ -36,9 +36,10 @@ C3 = ['p;q', 'r', '', 's;t;u', 'p;q', 'r;r']
 
 LIST_ITEM = "a3.split(';')"
 MIXED_NUM = '[3, 2.5, 10, 0.75, -1][NR % 5]'      # ints and floats in one column (valid in both engines)
-ITEMS = ['a1', 'a2', 'a3', 'NR', "'lit'", 'a1 + a2', 'NR % 2 - 2', 'NR % 3 - 2', 'a2', 'a1', LIST_ITEM, MIXED_NUM]
+KEYWORD_LITERALS = ["' limit 2 '", "'top 1 distinct'", "' order by a1 desc'"]      # string literals are opaque: keywords inside them are data
+ITEMS = ['a1', 'a2', 'a3', 'NR', "'lit'", 'a1 + a2', 'NR % 2 - 2', 'NR % 3 - 2', 'a2', 'a1', LIST_ITEM, MIXED_NUM] + KEYWORD_LITERALS
 UNNEST_ITEM = "UNNEST(a3.split(';'))"
-WHERES = [None, None, "a2 == 'v1'", 'NR <= 3', 'NR <= 5', "like(a2, 'v%')", 'a1 != a1', "a2 != 'zz'"]
+WHERES = [None, None, "a2 == 'v1'", 'NR <= 3', 'NR <= 5', "like(a2, 'v%')", 'a1 != a1', "a2 != 'zz'", "a2 != ' limit 1 '", "a1 != 'select top 1 distinct'"]
 
 
 class SimCap(BaseException):
